@@ -199,6 +199,9 @@ type Scenario struct {
 	Slow       int   // 0 fast consumer, 1 yielding consumer, 2 sleeping consumer
 	Procs      int   // GOMAXPROCS
 	PreClosed  bool  // inputs without items are closed before the combinator is started
+	// Rendezvous (Pipeline): the second-stage producers g(b) send their first item only after g has been
+	// called for every b: they make progress only if all second-stage streams are open at the same time
+	Rendezvous bool
 	Seed       int64
 }
 
@@ -373,13 +376,22 @@ func runScenario(cb *Comb, sc Scenario) (res scenResult) {
 			per = sc.Items[1]
 		}
 		f := func(a int) <-chan int { return ins[0] }
+		var gCalled int32
+		allCalled := make(chan struct{})
+		if !sc.Rendezvous || sc.Items[0] == 0 {
+			close(allCalled)
+		}
 		g := func(b int) <-chan int {
 			c := make(chan int, sc.Cap)
+			if sc.Rendezvous && int(atomic.AddInt32(&gCalled, 1)) == sc.Items[0] {
+				close(allCalled)
+			}
 			clientWG.Add(1)
 			go func() {
 				defer clientWG.Done()
 				r := rand.New(rand.NewSource(sc.Seed*313 + int64(b)))
 				var evs []Ev
+				<-allCalled
 				for k := 0; k < per; k++ {
 					perturb(r)
 					id := b*100 + k
@@ -610,6 +622,10 @@ func scenariosFor(cb *Comb, seed int64, n int) []Scenario {
 		}
 		if cb.Pipeline != nil {
 			sc.Items = []int{r.Intn(5), r.Intn(4)}
+			if len(out)%4 == 3 {
+				sc.Items = []int{2 + r.Intn(3), 1 + r.Intn(3)}
+				sc.Rendezvous = true
+			}
 		}
 		sc.Cap = r.Intn(3)
 		sc.CarrierCap = r.Intn(3)
